@@ -5,7 +5,7 @@ import json, os
 VERIF = os.path.dirname(os.path.dirname(os.path.abspath(__file__)))
 
 LEVEL = {
- "C02": ("exploration", "5 C02", "every packet written in every simulated session (both versions, DUP-patched repeats, resumes) is strictly decoded, re-encoded and compared with the request by an independent reference codec; unrepresentable arguments must fail with nothing written"),
+ "C02": ("exploration", "5 C02", "every packet written in every simulated session (both versions, DUP-patched repeats, resumes) is strictly decoded, re-encoded and compared with the request by an independent reference codec; unrepresentable arguments must fail with nothing written; plus one fixed scenario at the 268435455-byte remaining-length limit (refusal in the quick tier, acceptance in the thorough tier)"),
  "C03": ("fault_enumeration", "5 C03", "differential simulation: the same broker byte stream is delivered under every single cut, byte-at-a-time, all 2^(n-1) compositions of short streams and seeded random compositions, and the observation log must equal the one-packet-per-chunk run"),
  "C04": ("exploration", "5 C04", "handshake histories over 3 profiles x 2 versions x all CONNACK codes x timeout/loss/duplicate orderings, the connect Deferred and onDisconnection observed for exactly-once"),
  "C05": ("exploration", "5 C05", "seeded interleavings of publishes, windows, expiries and a broker answering in any order / twice / with unknown ids; each Deferred firing is matched against the acknowledgement delivered in the same dispatch"),
@@ -13,16 +13,16 @@ LEVEL = {
  "C07": ("exploration", "5 C07", "subscribe/unsubscribe in all argument shapes under changing windows, foreign/duplicate acks, expiries, loss and reconnect, ended by a drain phase in which everything must settle"),
  "C08": ("exploration", "5 C08", "a silent broker for k consecutive expiries in virtual time; retransmissions attributed to the timers armed by the previous transmission (black-box), content/flags/spacing checked"),
  "C09": ("exploration", "5 C09", "QoS 2 exchanges with out-of-order/duplicate acks, both retry timers and loss+resume at any point; per-identifier packet order checked across connections"),
- "C10": ("exploration", "5 C10", "window 1..16 changed at any time, any QoS mix, resumed sessions; in-flight count at every first transmission, FIFO order, nothing stranded after every dispatch"),
+ "C10": ("exploration", "5 C10", "window 1..16 changed at any time, any QoS mix, resumed sessions; in-flight count at every first transmission, FIFO order, nothing stranded after every dispatch; plus one fixed scenario with more than 65535 messages held back behind a full window"),
  "C11": ("fault_enumeration", "5 C11", "clean-session histories cut by a loss of every kind at seeded points with requests in every stage, followed by a rebuilt protocol and further traffic"),
  "C12": ("fault_enumeration", "5 C12", "persistent-session histories cut by losses (repeated), each followed by a rebuilt protocol connecting persistent or clean, publishing before and after CONNACK"),
  "C13": ("exploration", "5 C13", "timer table and writes checked after every dispatch of every family, then every connection is ended and all remaining timers are fired up to 1e7 virtual seconds"),
  "C14": ("exploration", "5 C14", "every API operation on every handle (live, connecting, idle, refused, stale) and every broker packet type foreign to state/profile at random points of fault-laden histories"),
  "C15": ("exploration", "5 C15", "keepalive 0..65535, many periods in virtual time, PINGRESP at any offset / exactly at k / never / twice / unsolicited, ties between the periodic call and the deadline resolved both ways"),
  "C16": ("exploration", "5 C16", "mutated / truncated / extended valid packets, every first byte, random streams, invalid UTF-8, reserved types and codes in every state with requests pending"),
- "C17": ("exploration", "5 C17", "every identifier on the wire and on Deferreds checked against all unfinished requests of the factory; identifier counter placed shortly before the wrap while requests are unfinished"),
+ "C17": ("exploration", "5 C17", "every identifier on the wire and on Deferreds checked against all unfinished requests of the factory; identifier counter placed shortly before the wrap or right before identifiers in use (also ones only held back in a queue, on either address) while requests are unfinished; a 65536-message queue and, in the thorough tier, a full 65535-allocation cycle"),
  "C18": ("exploration", "5 C18", "the complete byte stream of every connection strictly parsed; API calls and timer expiries placed in the interval between disconnect()/abort and the asynchronous loss report"),
- "C19": ("exploration", "5 C19", "differential simulation: histories on two addresses run alone and interleaved on one factory; per-address observation logs must be equal up to renaming of identifiers"),
+ "C19": ("exploration", "5 C19", "differential simulation: histories on two addresses run alone and interleaved on one factory; per-address observation logs must be equal up to renaming of identifiers; in half of the joint runs the shared counter is moved onto an identifier in use at a seeded address and the identifier rules judge the run"),
  "C20": ("exploration", "5 C20", "boundary / out-of-range / ill-typed arguments injected at random points of fault-laden histories; atomicity checked per dispatch and metamorphically (schedule with the rejected calls deleted gives the same observation log)"),
 }
 TECH = {
